@@ -23,6 +23,7 @@ type SV struct {
 }
 
 type specEnv struct {
+	facts []string // type facts of the values mentioned (always true; assumed before use)
 	x     *Exec
 	st    *State
 	old   *State
@@ -51,6 +52,11 @@ func (x *Exec) evalClause(st *State, fr *Frame, cl *Clause, binds map[string]SV)
 	if e.err != nil {
 		x.oos = append(x.oos, fmt.Sprintf("%s:%d: cannot evaluate clause [%s]: %v", cl.File, cl.Line, cl.Label, e.err))
 		return "false"
+	}
+	for _, f := range e.facts {
+		if !strings.Contains(f, "q_") { // facts about quantified variables cannot be hoisted
+			st.assume(f)
+		}
 	}
 	tv, ok := v.V.(TV)
 	if !ok || tv.S != SBool {
@@ -470,6 +476,16 @@ func (e *specEnv) field(base SV, name string) SV {
 	f := d.Fields[i]
 	el := TV{f.Sort, d.Get(i, tv.E)}
 	if f.Type != nil {
+		if r, ok := intRangeOf(f.Type); ok {
+			e.facts = append(e.facts, r.inRange(el.E))
+		} else if at, ok := f.Type.Underlying().(*types.Array); ok {
+			e.facts = append(e.facts, tEq(sLen(f.Sort, el.E), num(at.Len())))
+			if isByteElem(at.Elem()) {
+				e.facts = append(e.facts, app("g_isbytes", el.E))
+			}
+		} else if sl, ok := f.Type.Underlying().(*types.Slice); ok && isByteElem(sl.Elem()) {
+			e.facts = append(e.facts, app("g_isbytes", el.E))
+		}
 		return SV{V: e.wrapTyped(el, f.Type), T: f.Type}
 	}
 	return SV{V: el}
